@@ -69,6 +69,12 @@ Definition complement (r : float) : float := PrimFloat.sub r one.
 (* the boundary the complementary selection really uses: fl(1 + fl(r - 1)) *)
 Definition complement_boundary (r : float) : float := PrimFloat.add one (complement r).
 
+(* the offsets on which r and r - 1 fail to act as complements: those between the two
+   boundaries r and fl(1 + fl(r - 1)) (empty when the complement is exact) *)
+Definition in_gap (r off : float) : bool :=
+  let c1 := complement_boundary r in
+  (PrimFloat.leb r off && PrimFloat.ltb off c1) || (PrimFloat.leb c1 off && PrimFloat.ltb off r).
+
 (* ---------- the LIMIT_RATIO branch of aggregationK ---------- *)
 
 Definition neg_one : float := PrimFloat.opp one.
